@@ -5,6 +5,7 @@ import (
 	"context"
 	"crypto/sha256"
 	"encoding/hex"
+	"encoding/json"
 	"fmt"
 	"os"
 	"os/exec"
@@ -61,6 +62,23 @@ type SolveOpts struct {
 	TmpDir    string
 	Sem       chan struct{} // global concurrency limiter
 	TwoSolver bool
+	// SlowHints: obligations known to need more than the first round's budget on an idle
+	// machine (name -> seconds); their first round gets that budget, so that machine load does
+	// not turn a slow true goal into a timeout. Read from /verif/slow_hints.json.
+	SlowHints map[string]int
+}
+
+// LoadSlowHints reads the committed list of slow obligations (missing file: none).
+func LoadSlowHints(path string) map[string]int {
+	b, err := os.ReadFile(path)
+	if err != nil {
+		return nil
+	}
+	var m map[string]int
+	if json.Unmarshal(b, &m) != nil {
+		return nil
+	}
+	return m
 }
 
 func (o *SolveOpts) acquire() { o.Sem <- struct{}{} }
@@ -275,6 +293,12 @@ func Solve(tr *TargetResult, opts *SolveOpts) []*OblResult {
 			// started at once). At most lastResortMax goals per run take it, so a change that
 			// makes many goals undecidable does not hold the check up for long.
 			budgets := []int{opts.TimeoutS, 4 * opts.TimeoutS, 16 * opts.TimeoutS}
+			if h := opts.SlowHints[o.Name]; h > budgets[0] {
+				budgets[0] = h
+				if budgets[1] < h {
+					budgets[1] = h
+				}
+			}
 			if o.Cover {
 				budgets = budgets[:1]
 			}
